@@ -418,8 +418,20 @@ def plan_ops(doc: dict, man: dict, args: dict) -> list:
     return acts
 
 
+def plan_models_given(doc: dict, man: dict, args: dict) -> list:
+    """Round trips of explicitly given instances: args.instances = {reference path: [[label, value, flags], ...]}."""
+    acts = []
+    for ref, insts in (args.get("instances") or {}).items():
+        ent = (man.get("refs") or {}).get(ref)
+        if not ent or ent["kind"] != "ModelProperty" or ent["cls"] not in man["models"]:
+            continue
+        for label, v, flags in insts:
+            acts.append({"a": "roundtrip", "cls": ent["cls"], "value": v, "x": {"ref": ref, "label": label, "flags": flags}})
+    return acts
+
+
 def plan_import(doc, man, args):
     return [{"a": "import_all"}]
 
 
-PLANS = {"models": plan_models, "ops": plan_ops, "import": plan_import}
+PLANS = {"models": plan_models, "ops": plan_ops, "import": plan_import, "models_given": plan_models_given}
